@@ -30,6 +30,7 @@ structure Arith (R : Type) where
   conc : Int → R              -- `float64(int32)`
   avgRt : Nat → R             -- `float64(int64)`
   cap  : Nat → Nat → R        -- `GetMaxAvg(complete) * MinRT / 1000.0` from (max complete per bucket, minRt)
+  isNaN : R → Bool := fun _ => false   -- `math.IsNaN`
 
 /-- `system.Rule` (the ID plays no role) -/
 structure Rule (R : Type) where
@@ -54,12 +55,17 @@ def avgRtOf {R} (v : View R) : Nat := if v.complete = 0 then 0 else v.rt / v.com
 section code
 variable {R : Type} [LT R] [∀ a b : R, Decidable (a < b)]
 
-/-- `IsValidSystemRule` -/
-def validRule (A : Arith R) (r : Rule R) : Bool :=
+/-- `IsValidSystemRule` as **pinned** (before the repair `faf0578` of finding `nan-trigger`): a NaN trigger
+    passes every test (`NaN < 0` and `NaN > 1` are false) -/
+def validRulePinned (A : Arith R) (r : Rule R) : Bool :=
   if r.trigger < A.zero then false
   else if r.metric ≥ 5 then false
   else if r.metric = 4 ∧ r.trigger > A.one then false
   else true
+
+/-- `IsValidSystemRule` (repaired: a NaN `TriggerCount` is invalid) -/
+def validRule (A : Arith R) (r : Rule R) : Bool :=
+  if A.isNaN r.trigger then false else validRulePinned A r
 
 /-- `buildRuleMap`: the invalid rules are dropped; the map is flattened by `getRules` in an
     unspecified order of the metric types, so the rule list is only determined up to permutation -/
@@ -258,6 +264,6 @@ instance (a b : NanNat) : Decidable (a < b) := inferInstanceAs (Decidable (NanNa
 instance (a b : NanNat) : Decidable (a ≤ b) := inferInstanceAs (Decidable (NanNat.le a b = true))
 def nanArith : Arith NanNat :=
   { zero := some 0, one := some 1, qps := fun n => some n, conc := fun c => some c.toNat,
-    avgRt := fun n => some n, cap := fun m r => some (m * 2 * r / 1000) }
+    avgRt := fun n => some n, cap := fun m r => some (m * 2 * r / 1000), isNaN := fun x => x.isNone }
 
 end Sentinel.System
